@@ -84,6 +84,8 @@ let dispatch op =
   | "parking" -> let a = rd_zlist () in let n = rd_int () in out_bool (if n < 0 then is_parking a else is_parking_n a (nat_of_int n))
   | "genpark" -> let n = rd_nat () in let l = generate_parking n in out_int (List.length l); out_z (parking_count n); List.iter (fun a -> List.iter out_z a; out ";") l
   | "sscount" -> let g = rd_graph () in let q = rd_nat () in out_z (count_superstables g q); out_z (det (lap_reduced g q))
+  | "greedy" -> let g = rd_graph () in let o = rd_natlist () in let d = rd_zlist () in
+      (match greedy g o d with None -> out "fail" | Some (d', s) -> out "ok"; List.iter out_z d'; out ";"; List.iter out_z s)
   | "game" -> let g = rd_graph () in let d = rd_zlist () in let v = rd_nat () in out_res out_bool (play_game fuel g d v)
   | "strat" -> let g = rd_graph () in let d = rd_zlist () in
       out_res (fun (b, l) -> out_bool b; out_natlist l) (test_strategy fuel g d)
